@@ -24,6 +24,7 @@ A fact established on any view holds for the function, so a rule may combine fac
 behaviour: a statement that is wrong in the source is wrong in every view."""
 from __future__ import annotations
 import ast
+import re
 import copy
 from typing import Dict, List, Optional, Sequence, Set, Tuple
 
@@ -951,10 +952,104 @@ def inlined(fn, repo, ci=None, rel=None, depth=2, keep=frozenset()):
     f.body = _norm_body(f.body)
     res.set_local_defs(f)
     f.body = _inline_block(f.body, res, depth, (fn.name,))
+    f.body = _merge_tail_returns(f.body)
     f.body = _norm_body(f.body)
     f.body = _sink_into_branches(f.body)
+    if _coalesce_helper_locals(f):
+        f.body = _norm_body(f.body)
     f = alpha(f)
     return set_parents(ast.fix_missing_locations(f))
+
+
+def _merge_tail_returns(body):
+    """if C: A; return (e1, .., ek)  else: B        ->   if C: A; n1, .., nk = e1, .., ek  else: B
+       return (n1, .., nk)                                return (n1, .., nk)
+    (a branch that hands back the result tuple itself -- typically an inlined helper that built it -- instead of binding the result names and
+    falling through to the function's single return; the values are evaluated before any name is bound, as in the return)"""
+    if len(body) < 2 or not isinstance(body[-1], ast.Return) or not isinstance(body[-1].value, ast.Tuple):
+        return body
+    final = body[-1].value
+    if len(final.elts) < 2 or not all(isinstance(e, ast.Name) for e in final.elts) or len({e.id for e in final.elts}) != len(final.elts):
+        return body
+    st = body[-2]
+    if not isinstance(st, ast.If):
+        return body
+    ends = [blk for blk in (st.body, st.orelse) if blk and isinstance(blk[-1], ast.Return)]
+    if len(ends) != 1:
+        return body
+    blk = ends[0]
+    v = blk[-1].value
+    if not (isinstance(v, ast.Tuple) and len(v.elts) == len(final.elts) and not any(isinstance(x, ast.Starred) for x in v.elts)):
+        return body
+    tgt = ast.Tuple([ast.Name(e.id, ast.Store()) for e in final.elts], ast.Store())
+    blk[-1] = ast.copy_location(ast.Assign([tgt], v), blk[-1])
+    return body
+
+
+_HSUF = re.compile(r"^(.+)__h\d+$")
+
+
+def _coalesce_helper_locals(f) -> bool:
+    """locals of an inlined helper carry a suffix (x__h1) so that they cannot capture the caller's names.  Where that precaution was not needed the
+    suffix is dropped again: (a) the caller does not use the base name x at all -> plain renaming; (b) all occurrences of x__h1 lie in one block, the
+    only occurrence of x in that block from the first occurrence of x__h1 on is a top-level copy `x = x__h1` placed after the last binding of x__h1,
+    and x is not re-bound later in the block -> x__h1 IS x from its binding on: rename and drop the copy."""
+    set_parents(f)
+    changed = False
+    ys = sorted({n.id for n in ast.walk(f) if isinstance(n, ast.Name) and _HSUF.match(n.id)})
+    for y in ys:
+        x = _HSUF.match(y).group(1)
+        occ_x = [n for n in ast.walk(f) if (isinstance(n, ast.Name) and n.id == x) or (isinstance(n, ast.arg) and n.arg == x)]
+        occ_y = [n for n in ast.walk(f) if isinstance(n, ast.Name) and n.id == y]
+        if any(_in_closure(n, f) for n in occ_y + [n for n in occ_x if isinstance(n, ast.Name)]):
+            continue
+        if not occ_x:
+            for n in occ_y:
+                n.id = x
+            changed = True
+            continue
+        # the block (statement list) holding all occurrences of y
+        blk = None
+        for node in ast.walk(f):
+            for fld in ("body", "orelse", "finalbody"):
+                b = getattr(node, fld, None)
+                if not (isinstance(b, list) and b and isinstance(b[0], ast.stmt)):
+                    continue
+                inside = {id(n) for st in b for n in ast.walk(st)}
+                if all(id(n) in inside for n in occ_y):
+                    if blk is None or len(inside) < blk[1]:
+                        blk = (b, len(inside))
+        if blk is None:
+            continue
+        b = blk[0]
+        idx_of = lambda n: next(i for i, st in enumerate(b) if any(m is n for m in ast.walk(st)))
+        iy = [idx_of(n) for n in occ_y]
+        i0 = min(iy)
+        stores_y = [n for n in occ_y if isinstance(n.ctx, (ast.Store, ast.Del))]
+        # bindings of y are top-level statements of the block (plain or tuple targets)
+        def definitely(st):
+            if isinstance(st, ast.Assign):
+                return any(isinstance(m, ast.Name) and m.id == y for t in st.targets for m in ast.walk(t))
+            if isinstance(st, ast.If):
+                return any(definitely(q) for q in st.body) and any(definitely(q) for q in st.orelse)
+            return False
+        if not stores_y or not any(definitely(st) for st in b):
+            continue               # y must be bound on every path before the copy (otherwise the copy raises where the renamed code would not)
+        last_store = max(idx_of(n) for n in stores_y)
+        xs_in = [(i, n) for i, st in enumerate(b) if i >= i0 for n in ast.walk(st) if isinstance(n, ast.Name) and n.id == x]
+        copies = [i for i, st in enumerate(b) if isinstance(st, ast.Assign) and len(st.targets) == 1 and isinstance(st.targets[0], ast.Name)
+                  and st.targets[0].id == x and isinstance(st.value, ast.Name) and st.value.id == y]
+        if len(copies) != 1 or copies[0] <= last_store:
+            continue
+        c = copies[0]
+        if any(i < c for i, n in xs_in) or any(isinstance(n.ctx, (ast.Store, ast.Del)) and i != c for i, n in xs_in):
+            continue
+        for n in occ_y:
+            n.id = x
+        b.pop(c)
+        changed = True
+        set_parents(f)
+    return changed
 
 
 # ----------------------------------------------------------------------------------------------------------------- forward substitution
